@@ -179,13 +179,13 @@ Proof. reflexivity. Qed.
 Theorem step_candidates_in_axis_order en a t preds p l :
   step_from en a t preds p = Ok l ->
   exists rt cands,
-    resolve_test en t = Ok rt /\
+    resolve_test en a t = Ok rt /\
     cands = filter (test_node (e_doc en) (principal_of a) rt) (select (e_doc en) a [p]) /\
     apply_preds en preds cands = Ok l /\
     (if axis_reverse a then StronglySorted (pos_gt (e_doc en)) cands
      else StronglySorted (pos_lt (e_doc en)) cands).
 Proof.
-  unfold step_from. destruct (resolve_test en t) as [rt|]; [|discriminate]. intros H.
+  unfold step_from. destruct (resolve_test en a t) as [rt|]; [|discriminate]. intros H.
   exists rt, (filter (test_node (e_doc en) (principal_of a) rt) (select (e_doc en) a [p])).
   repeat split; auto.
   assert (Hsub : forall (R : path -> path -> Prop) l0, StronglySorted R l0 ->
@@ -430,10 +430,13 @@ Qed.
 Definition rn_rawq (rho : str -> str) (q : rawq) : rawq :=
   match q with (Some p, l) => (Some (rho p), l) | (None, l) => (None, l) end.
 
-Definition rn_test (rho : str -> str) (t : nodetest) : nodetest :=
+(** on the namespace axis the library reads an unprefixed name test as a reference to a
+    prefix of the query's bindings (Eval.resolve_test), so it is renamed with them *)
+Definition rn_test (rho : str -> str) (a : axis) (t : nodetest) : nodetest :=
   match t with
   | NTNsAny p => NTNsAny (rho p)
   | NTQName p l => NTQName (rho p) l
+  | NTName l => match a with Namespace => NTName (rho l) | _ => t end
   | _ => t
   end.
 
@@ -454,7 +457,7 @@ Fixpoint rn_expr (rho : str -> str) (e : expr) {struct e} : expr :=
   end
 with rn_stp (rho : str -> str) (s : stp) {struct s} : stp :=
   match s with
-  | SAxis a t preds => SAxis a (rn_test rho t) (map (rn_expr rho) preds)
+  | SAxis a t preds => SAxis a (rn_test rho a t) (map (rn_expr rho) preds)
   | SCall q args => SCall (rn_rawq rho q) (map (rn_expr rho) args)
   end.
 
@@ -471,8 +474,8 @@ Section Renaming.
   Lemma rn_resolve_q q : resolve_q en' (rn_rawq rho q) = resolve_q en q.
   Proof. destruct q as [[p|] l]; simpl; [now rewrite Hns|reflexivity]. Qed.
 
-  Lemma rn_resolve_test t : resolve_test en' (rn_test rho t) = resolve_test en t.
-  Proof. destruct t; simpl; try reflexivity; now rewrite Hns. Qed.
+  Lemma rn_resolve_test a t : resolve_test en' a (rn_test rho a t) = resolve_test en a t.
+  Proof. destruct t; simpl; try reflexivity; try (now rewrite Hns). destruct a; simpl; try reflexivity. now rewrite Hns. Qed.
 
   Lemma rn_call_function q vs c : call_function en' (rn_rawq rho q) vs c = call_function en q vs c.
   Proof.
@@ -554,7 +557,7 @@ Section Renaming.
       rewrite (concat_res_ext _ (step_from en a t (map (fun p => eval en p) preds))).
       + now rewrite Hdoc.
       + intros p. unfold step_from. rewrite rn_resolve_test, Hdoc.
-        destruct (resolve_test en t); [|reflexivity].
+        destruct (resolve_test en a t); [|reflexivity].
         rewrite map_map. apply apply_preds_ext. apply Forall_map2. exact Hpreds.
     - intros q args Hargs c v. simpl. destruct v as [l| | |]; try reflexivity.
       rewrite map_map. rewrite (eval_args_ext _ (map (fun a => eval en a) args)).
